@@ -326,7 +326,7 @@ for _p in ("C15", "C01", "C18"):
     H(_p, "svg", "VxH_C15_svg_templates", reach=["resolved"], bounds="three gradient definitions, href of each one of {none, #g0, #g1, #g2} (all 64 reference graphs, cycles included), visiting order of the definitions map a solver-chosen permutation in two independent runs", quick={"maxsteps": 80000000, "shards": 6})
 H("C14", "svg", "VxH_C14_svg_dashes", mode="real", nonfinite_confirm=True, reach=["resolved", "pattern"], bounds="stroke-dasharray of 1..2 (thorough 3) px lengths and a px dash offset, all unbounded symbolic reals; paths with a float division by zero are decided by running their solver model natively")
 H("C15", "text/hyphen", "VxH_C15_hyphen_shared", reach=["hyphenated", "has-break"], bounds="a word of 3..4 (thorough 5) symbolic ASCII letters, lower or upper case, against a hand-built dictionary with two non-standard (Hungarian style) and two plain patterns; two Hyphener values sharing the dictionary data", quick={"shards": 4})
-H("C11", "html/layout", "VxH_C11_lines", mode="real", reach=["laid-out", "wrapped", "preserved-line-feed"], bounds="one paragraph of 3..5 words (plain with text-indent 0 / 20px, with a preserved line feed under pre-line, with a padded span under normal and pre-line, nowrap; thorough: rtl) x text-align left/right/center x container width a symbolic real in [10, 200] px; font model: every rune a 10px em square, breaks after spaces only (text.VxAhem stands in for the Pango / go-text engines)", quick={"maxsteps": 200000000, "shards": 6})
+H("C11", "html/layout", "VxH_C11_lines", mode="real", reach=["laid-out", "wrapped", "preserved-line-feed"], bounds="one paragraph of 3..5 words (plain with text-indent 0 / 20px, with a preserved line feed under pre-line, with a padded span under normal and pre-line, a span with a wide start spacing glued to following text, nowrap; thorough: rtl) x text-align left/right/center x container width a symbolic real in [10, 200] px; font model: every rune a 10px em square, breaks after spaces only (text.VxAhem stands in for the Pango / go-text engines)", quick={"maxsteps": 200000000, "shards": 6})
 for _p in ("C12", "C02"):
     H(_p, "html/layout", "VxH_C12_paragraph", mode="real", reach=["laid-out", "paragraph-split", "conforming-break-exists"], bounds="one paragraph of 3..5 (thorough 6) one-word lines of 10px, orphans and widows in 1..3, page height a symbolic real in [15, 75] px; font model text.VxAhem", quick={"maxsteps": 200000000, "shards": 6})
 H("C14", "html/document", "VxH_C14_write", mode="real", reach=["rendered", "written", "dangling-link"], bounds="three 10px sections on 100px pages, each with id A / B / none, the second and third optionally starting a new page, two <a> elements with href in {#A, #B, #missing, external} (quick: the third section A / none, the second link #A / #missing); zoom a symbolic real in [0.25, 4]; Render + Write on a recording backend.Document", quick={"maxsteps": 300000000, "time": "800s", "shards": 8})
@@ -359,3 +359,4 @@ H("C08", "css/validation", "VxH_C08_important_comments", reach=["validated"], bo
 H("C04", "html/tree", "VxH_C04_font_size_steps", mode="real", reach=["computed", "within-table"], bounds="parent font size a symbolic real in [1,100] px, child font-size smaller / larger")
 H("C09", "html/boxes", "VxH_C09_table_parts", reach=["built"], bounds="x-p > x-j > (x-k, x-i): x-j one of 7 parents (table, inline-table, block, inline, table-row, table-row-group, flex), x-k and x-i one of 9 table parts / inline / block", quick={"maxsteps": 80000000, "shards": 8})
 H("C10", "html/layout", "VxH_C10_box_sizing_height", mode="real", reach=["laid-out"], bounds="one empty block with symbolic vertical / horizontal paddings and borders, box-sizing in 3 values, one of height / min-height / max-height (under height: 300px) symbolic in [0,150]", quick={"maxsteps": 100000000, "shards": 4})
+H("C12", "html/layout", "VxH_C12_avoid_paragraph", mode="real", reach=["laid-out", "break-between-the-paragraphs"], bounds="a paragraph of 3..5 one-word lines followed by a 2-line paragraph with break-before auto / avoid, orphans = widows = 2, page height a symbolic real in [25,75] px; VxAhem font model", quick={"maxsteps": 200000000, "shards": 6})
